@@ -178,7 +178,8 @@ def is_conforming_tet_mesh(pts, cells):
             return False
         seen.add(k)
         used |= set(c)
-        if abs(lib_orientation(pts, c)) < 1e-9:
+        ext = max(abs(pts[c[i]][k] - pts[c[0]][k]) for i in range(1, 4) for k in range(3))
+        if abs(lib_orientation(pts, c)) < 1e-9 * max(ext, 1e-300) ** 3:  # degenerate relative to the cell's own size
             return False
     if len(used) != nv:
         return False
